@@ -6,6 +6,7 @@ use ndarray_interp::interp1d::cubic_spline::SplineNum;
 
 use crate::q::Q;
 use crate::z::Z;
+use crate::z32::Z32;
 
 pub struct Toks<'a> {
     it: std::str::SplitWhitespace<'a>,
@@ -99,6 +100,63 @@ impl Scalar for Z {
     }
     fn parse_debug(s: &str) -> Option<Self> {
         s.parse::<i64>().ok().map(Z)
+    }
+}
+
+impl Scalar for Z32 {
+    const TAG: &'static str = "J";
+    fn parse(s: &str) -> Option<Self> {
+        s.parse::<i32>().ok().map(Z32)
+    }
+    fn show(self) -> String {
+        self.0.to_string()
+    }
+    fn poison() -> Self {
+        Z32(-987_654_321)
+    }
+    fn is_poison(self) -> bool {
+        self == Self::poison()
+    }
+    fn junk() -> Self {
+        Z32(-123_456_789)
+    }
+    fn parse_debug(s: &str) -> Option<Self> {
+        s.parse::<i32>().ok().map(Z32)
+    }
+}
+
+const POISON32_BITS: u32 = 0x7fc0_dea1;
+const JUNK32_BITS: u32 = 0x7fc0_0bad;
+
+impl Scalar for f32 {
+    const TAG: &'static str = "G";
+    fn parse(s: &str) -> Option<Self> {
+        if s.len() != 8 {
+            return None;
+        }
+        u32::from_str_radix(s, 16).ok().map(f32::from_bits)
+    }
+    fn show(self) -> String {
+        format!("{:08x}", self.to_bits())
+    }
+    fn poison() -> Self {
+        f32::from_bits(POISON32_BITS)
+    }
+    fn is_poison(self) -> bool {
+        self.to_bits() == POISON32_BITS
+    }
+    fn junk() -> Self {
+        f32::from_bits(JUNK32_BITS)
+    }
+    fn parse_debug(s: &str) -> Option<Self> {
+        s.parse::<f32>().ok()
+    }
+    fn show_canon(self) -> String {
+        if self.is_nan() {
+            "nan".into()
+        } else {
+            self.show()
+        }
     }
 }
 
